@@ -51,6 +51,9 @@ enum Step {
     AddMixed(usize, Option<Enc>),
     AddEncrypted(usize, Enc),
     AddChunk(usize, u8),
+    /// add_chunk(ChunkData::from_compressed(mode, body, size)): pre-compressed chunk body, decoded size given
+    /// (true) or unknown (false)
+    AddChunkPre(usize, u8, bool),
 }
 
 impl Step {
@@ -66,10 +69,11 @@ impl Step {
             Step::AddMixed(_, Some(_)) => "add_mixed_data(Some)",
             Step::AddEncrypted(..) => "add_encrypted_data",
             Step::AddChunk(..) => "add_chunk",
+            Step::AddChunkPre(..) => "add_chunk(from_compressed)",
         }
     }
     fn is_add(&self) -> bool {
-        matches!(self, Step::AddData(_) | Step::AddMixed(..) | Step::AddEncrypted(..) | Step::AddChunk(..))
+        matches!(self, Step::AddData(_) | Step::AddMixed(..) | Step::AddEncrypted(..) | Step::AddChunk(..) | Step::AddChunkPre(..))
     }
 }
 
@@ -244,6 +248,7 @@ fn gen_program(rng: &mut Rng) -> Program {
                 0..=3 => Step::AddData(pi),
                 4 | 5 => Step::AddMixed(pi, if rng.bool() { Some(gen_enc(rng, nkeys)) } else { None }),
                 6 | 7 => Step::AddEncrypted(pi, gen_enc(rng, nkeys)),
+                _ if rng.chance(1, 3) => Step::AddChunkPre(pi, *rng.pick(b"NZ4"), rng.bool()),
                 _ => Step::AddChunk(pi, if rng.chance(1, 25) { *rng.pick(b"EF") } else { *rng.pick(b"NZ4") }),
             }
         } else {
@@ -278,6 +283,7 @@ fn describe(p: &Program) -> Value {
             Step::AddMixed(i, e) => json!({"call":"add_mixed_data","payload":i,"enc":e.map(|e| json!({"cipher":cipher_name(e.cipher),"key":e.key_idx,"iv":hex::encode(e.iv)}))}),
             Step::AddEncrypted(i, e) => json!({"call":"add_encrypted_data","payload":i,"cipher":cipher_name(e.cipher),"key":e.key_idx,"iv":hex::encode(e.iv),"block_index":"= chunk position"}),
             Step::AddChunk(i, m) => json!({"call":"add_chunk(ChunkData::new)","payload":i,"mode":char::from(*m).to_string()}),
+            Step::AddChunkPre(i, m, known) => json!({"call":"add_chunk(ChunkData::from_compressed)","payload":i,"mode":char::from(*m).to_string(),"decoded_size_given":known}),
         })
         .collect();
     json!({
@@ -696,6 +702,13 @@ fn run_program(ctx: &Ctx, loc: &mut Local, pylog: &Mutex<PyLog>, p: &Program, co
                     let c = ChunkData::new(p.payloads[*i].1.clone(), mode_of(*m)).map_err(|e| format!("ChunkData::new: {e}"))?;
                     Ok(b.add_chunk(c))
                 }
+                Step::AddChunkPre(i, m, known) => {
+                    // compress with the library, then hand the compressed body back as a pre-compressed chunk
+                    let c = ChunkData::new(p.payloads[*i].1.clone(), mode_of(*m)).map_err(|e| format!("ChunkData::new: {e}"))?;
+                    let body = c.compressed_data()[1..].to_vec();
+                    let pre = ChunkData::from_compressed(mode_of(*m), body, known.then_some(p.payloads[*i].1.len()));
+                    Ok(b.add_chunk(pre))
+                }
             }
         }));
         match r {
@@ -731,6 +744,7 @@ fn run_program(ctx: &Ctx, loc: &mut Local, pylog: &Mutex<PyLog>, p: &Program, co
             }
             Step::AddEncrypted(i, e) => exp.push(ExpChunk { payload: p.payloads[*i].1.clone(), origin: "add_encrypted_data", cipher: e.cipher }),
             Step::AddChunk(i, _) => exp.push(ExpChunk { payload: p.payloads[*i].1.clone(), origin: "add_chunk", cipher: 0 }),
+            Step::AddChunkPre(i, _, known) => exp.push(ExpChunk { payload: p.payloads[*i].1.clone(), origin: if *known { "add_chunk(from_compressed,size-given)" } else { "add_chunk(from_compressed,size-unknown)" }, cipher: 0 }),
         }
     }
     if let Some((kind, e)) = refused {
